@@ -152,4 +152,28 @@ Proof.
   - by move=> u v; rewrite mulmxDr.
   - by move=> c v; rewrite -scalemxAr.
 Qed.
+(* ... and in Taylor form: y_front = sum_j p_j (dt M)^j y *)
+Lemma mx_linear_step_taylor n m (tb : tableau R) (M : 'M[R]_n) t (y : 'M[R]_(n,m)) dt :
+  mx_step tb (fun _ => M) t y dt
+  = peval R 'M[R]_(n,m) +%R *:%R 0 (fun v => dt *: (M *m v)) y
+      (compute_step R (list R) +%R *%R 0 (fun c => c == 0)
+         (padd R +%R) (pscal R *%R) (fun _ => pshift R 0) tb t [:: 1] 1).
+Proof.
+  rewrite /mx_step.
+  apply: (step_taylor_form R 'M[R]_(n,m) +%R *%R 0 1 (fun c => c == 0) +%R *:%R 0 (mulmx M)).
+  - exact: mulrC.
+  - exact: mul1r.
+  - by move=> c v /eqP ->; rewrite scale0r.
+  - exact: addrC.
+  - exact: addrA.
+  - exact: addr0.
+  - by move=> a b v; rewrite scalerDl.
+  - by move=> c u v; rewrite scalerDr.
+  - by move=> a b v; rewrite scalerA.
+  - exact: scale0r.
+  - exact: scale1r.
+  - exact: scaler0.
+  - by move=> u v; rewrite mulmxDr.
+  - by move=> c v; rewrite -scalemxAr.
+Qed.
 End KernelOnMatrices.
